@@ -653,6 +653,32 @@ func (x *c18) otherEntryPoints(kind string, data []byte, w *world) {
 		if req, err := http.ReadRequest(bufio.NewReader(strings.NewReader(raw))); err == nil {
 			_, _ = fclient.VerifyHTTPRequest(req, time.Now(), "a.example", nil, &gmsl.KeyRing{KeyDatabase: c18db})
 		}
+		// the same header twice, the second time with the letters of the origin in the other case
+		oneLine := strings.Map(func(r rune) rune {
+			if r == '\r' || r == '\n' {
+				return ' '
+			}
+			return r
+		}, s)
+		if i := strings.Index(oneLine, "origin="); i >= 0 {
+			j := strings.IndexByte(oneLine[i:], ',')
+			if j < 0 {
+				j = len(oneLine) - i
+			}
+			swapped := oneLine[:i+7] + strings.Map(func(r rune) rune {
+				switch {
+				case r >= 'a' && r <= 'z':
+					return r - 32
+				case r >= 'A' && r <= 'Z':
+					return r + 32
+				}
+				return r
+			}, oneLine[i+7:i+j]) + strings.Replace(oneLine[i+j:], "key=\"", "key=\"x", 1)
+			raw3 := "PUT /x HTTP/1.1\r\nHost: a.example\r\nAuthorization: " + oneLine + "\r\nAuthorization: " + swapped + "\r\nContent-Length: 0\r\n\r\n"
+			if req, err := http.ReadRequest(bufio.NewReader(strings.NewReader(raw3))); err == nil {
+				_, _ = fclient.VerifyHTTPRequest(req, time.Now(), "a.example", nil, &gmsl.KeyRing{KeyDatabase: c18db})
+			}
+		}
 		raw2 := "PUT /x HTTP/1.1\r\nHost: a.example\r\nAuthorization: X-Matrix origin=\"origin.example\",key=\"ed25519:a\",sig=\"c2ln\"\r\nContent-Type: application/json\r\nContent-Length: " + fmt.Sprint(len(data)) + "\r\n\r\n"
 		if req, err := http.ReadRequest(bufio.NewReader(io2(raw2, data))); err == nil {
 			_, _ = fclient.VerifyHTTPRequest(req, time.Now(), "a.example", nil, &gmsl.KeyRing{KeyDatabase: c18db})
